@@ -43,6 +43,12 @@ func c15AttachSites() []c15AttachSite {
 		{Name: "func-doc", Obj: "Fn", Role: "func", Src: h + "{C}\nfunc Fn() {}\n"},
 		{Name: "method-doc", Obj: "Mt", Role: "method", Recv: "A", Src: h + "type A struct{ F int }\n\n{C}\nfunc (a A) Mt() {}\n"},
 		{Name: "method-doc-pointer-receiver", Obj: "Mt", Role: "method", Recv: "A", Src: h + "type A struct{ F int }\n\n{C}\nfunc (a *A) Mt() {}\n"},
+		{Name: "method-doc-unnamed-receiver", Obj: "Mt", Role: "method", Recv: "A", Src: h + "type A struct{ F int }\n\n{C}\nfunc (A) Mt() {}\n"},
+		{Name: "method-doc-unnamed-pointer-receiver", Obj: "Mt", Role: "method", Recv: "A", Src: h + "type A struct{ F int }\n\n{C}\nfunc (*A) Mt() {}\n"},
+		{Name: "method-doc-blank-receiver", Obj: "Mt", Role: "method", Recv: "A", Src: h + "type A struct{ F int }\n\n{C}\nfunc (_ *A) Mt() {}\n"},
+		{Name: "method-doc-parenthesised-receiver", Obj: "Mt", Role: "method", Recv: "A", Src: h + "type A struct{ F int }\n\n{C}\nfunc (a *(A)) Mt() {}\n"},
+		{Name: "method-doc-generic-receiver", Obj: "Mt", Role: "method", Recv: "A", Src: h + "type A[V any] struct{ F V }\n\n{C}\nfunc (a *A[V]) Mt() {}\n"},
+		{Name: "method-doc-beside-same-named-func", Obj: "Mt", Role: "method", Recv: "A", Src: h + "type A struct{ F int }\n\nfunc Mt() {}\n\n{C}\nfunc (A) Mt() {}\n"},
 		{Name: "field-doc-of-immutable-struct", Obj: "A", Role: "field", Fixed: []string{"immutable@A"},
 			Src: h + "// @immutable\ntype A struct {\n\t{C}\n\tF int\n}\n"},
 		{Name: "multi-name-field-doc-of-immutable-struct", Obj: "A", Role: "fields", Fixed: []string{"immutable@A"},
